@@ -214,6 +214,10 @@ def task(ctl, jid, kind, catch=False):
                 raise ValueError(('boom', jid))
             if kind == 2:
                 raise TaskBase(('base', jid))
+            if kind == 4:
+                raise SystemExit(3)           # the task itself calls sys.exit(3): no termination signal is involved
+            if kind == 5:
+                raise KeyboardInterrupt()
         except BaseException:
             if not catch:
                 raise
